@@ -622,3 +622,55 @@ def run_C11(ctx):
         ASSUME_COMMON + ["dispatches caused by a kick on a descriptor the ring no longer holds are not judged",
                          "epoll reports descriptors that became ready before the barrier descriptor no later than the barrier (level-triggered, FIFO ready list)"],
         viol)
+
+
+def limbs(v):
+    return [v & 0xffff, (v >> 16) & 0xffff, (v >> 32) & 0xffff, (v >> 48) & 0xffff]
+
+
+def run_C17(ctx):
+    cfgs = ctx.tlc_mc("MC_Routing", "MC_Routing_" + ctx.tier, workers=1)
+    rnd = random.Random(ctx.seed)
+    # random configurations with 5-6 queues (beyond the exhaustive bound)
+    for _ in range(60 if ctx.tier == "quick" else 1500):
+        nq = rnd.choice((5, 6))
+        cfgs.append(dict(nq=nq, masks=[rnd.randrange(1, 1 << (nq + 1)) for _ in range(rnd.randint(1, 3))]))
+    cases = []
+    for i, c in enumerate(cfgs):
+        nq = c["nq"]
+        steps = [dict(op="negotiate", feats=[], pf=[3])]
+        for q in range(nq):
+            steps.append(dict(op="set_vring_num", q=q, n=limbs(2 << q)))
+            steps.append(dict(op="set_vring_kick", q=q, fd="new"))
+        order = list(range(nq))
+        rnd.shuffle(order)
+        steps += [dict(op="kick", q=q, which="cur") for q in order]
+        cases.append(dict(nq=nq, masks=c["masks"], maxq=256, vring="rwlock" if i % 2 else "mutex", adapter=("arc", "mutex", "rwlock")[i % 3], steps=steps))
+    # custom listener ids across the 64-bit range
+    for nq, masks in ((2, [3]), (3, [5, 2]), (1, [1]), (4, [0xf, 0])):
+        ids = [0, nq - 1, nq, nq + 1, nq + 2, 255, 256, 65535]
+        for k in (0, 1, nq - 1, nq, nq + 1):
+            ids += [65536 + k, (1 << 32) + k, (1 << 48) + k, (1 << 63) + k]
+        ids.append((1 << 64) - 1)
+        for idv in ids:
+            for t in range(len(masks)):
+                pre = [dict(op="negotiate", feats=[], pf=[3])]
+                for q in range(nq):
+                    pre.append(dict(op="set_vring_num", q=q, n=limbs(2 << q)))
+                    pre.append(dict(op="set_vring_kick", q=q, fd="new"))
+                cases.append(dict(nq=nq, masks=masks, steps=pre + [dict(op="listener", thread=t, idl=limbs(idv))]
+                                  + [dict(op="kick", q=q, which="cur") for q in range(nq)]))
+    cases = replay_or(ctx, "daemon", cases)
+    tr = ctx.harness("daemon", cases, shards=12)
+    viol = ctx.tlc_tv("TV_Routing", tr, "daemon")
+    ctx.count_distinct(tr, lambda e: (e.get("op"), e.get("q"), e.get("status"), json.dumps([(d["thread"], d["event"], d["sizes"]) for d in e.get("dispatches", [])])),
+                       lambda e: e.get("ev") == "step" and e.get("op") in ("kick", "listener"))
+    ctx.sample(tr, 2, skip=9)
+    ctx.exhaustive = True
+    return ctx.finish("model_checking",
+        "Routing.tla: TLC checks owner uniqueness, rank-is-slice-index and no collision with the exit id over every assignment of 1..3 "
+        "(4 thorough) queues to 1..3 worker masks over bits 0..nq (sparse, overlapping, empty masks, one bit beyond the queue count) and "
+        "emits each configuration; every queue of every configuration (plus random 5-6 queue configurations) is kicked on a real daemon "
+        "whose rings are told apart by configured sizes; TLC validates (thread, event id, slice) of each dispatch. Custom listener ids "
+        "over the 64-bit range (reserved, nq+1, 255, 65535, 65536+k, 2^32+k, 2^48+k, 2^63+k, 2^64-1) are registered and fired.",
+        ASSUME_COMMON, viol)
